@@ -9,7 +9,9 @@
 //     base64/hex segment, DID documents, file names) for them;
 //  2. namespace monitor: hostile key names / key ids through every key store and storage method and the HTTP API, with
 //     snapshots of the file tree outside the key directory and inotify watches on decoy key files placed outside it;
-//  3. sign/verify agreement: every signature verifies with the key published for its key id and with no other key of the node.
+//  3. sign/verify agreement: every signature verifies with the key published for its key id and with no other key of the node;
+//  4. jwk-header monitor (jwkheader_test.go): the private half of a node-held key of every JWK key family, in every shape a caller can
+//     supply, in the jwk header of every JWS/JWT/DPoP signing entry point; the protected header of what is returned is decoded and searched.
 package c03
 
 import (
@@ -376,7 +378,11 @@ func TestCheck(t *testing.T) {
 	defer r.Finish()
 	r.SetRule("cases = (a) every API operation of the workload (HTTP exchange on the internal or public listener, or Go call on crypto.KeyStore), non-trivial when the node answered while at least one private key of it was known to the scanner, distinct by (operation, status class); " +
 		"(b) namespace calls (layer, method, hostile name): fixed grammar of traversal / absolute / percent-encoded / NUL / long / unicode / separator-heavy / colliding / *_private.pem names, all aimed at decoy key files outside the key directory where applicable, plus seeded combinations of the grammar's atoms; " +
-		"non-trivial when the call ran between two snapshots of the tree outside the key directory; (c) agreement checks: one per signed artefact (requested through the crypto API, or harvested from any captured stream), non-trivial when it verified with the key of its kid and was tried against at least one other key. " +
+		"non-trivial when the call ran between two snapshots of the tree outside the key directory; (c) agreement checks: one per signed artefact (requested through the crypto API, or harvested from any captured stream), non-trivial when it verified with the key of its kid and was tried against at least one other key; " +
+		"(d) jwk-header calls (signing entry point, key family, header form): every JWS/JWT/DPoP signing entry point of crypto.KeyStore, MemoryJWTSigner and package crypto x the private half of one key of every family the node holds " +
+		"(EC P-256/P-384/P-521, RSA, OKP Ed25519 from the key directory; the in-memory signer's own key) x {jwk.Key from the raw key, jwk.Key parsed from JSON, raw crypto key, member map, raw JSON} in the jwk header; the protected header of whatever is returned " +
+		"is decoded and searched for private JWK members (d,p,q,dp,dq,qi,oth,k) and the returned text for the canary patterns, independent of the error value; non-trivial when the key is known to the scanner and the call returned. " +
+		"OKP X25519 and oct keys (families the node cannot hold) and foreign keys over HTTP sign_jws are driven too, an echo of those is unspecified. " +
 		"Canary patterns: raw, hex (lower/upper/trimmed/colon), Go and JSON byte lists, base64url/base64 (padded, unpadded, and the two shifted alignments inside a larger base64 container), decimal, PEM body lines and DER chunk of every secret component (EC D; RSA D, primes, CRT values; Ed25519 seed); " +
 		fmt.Sprintf("patterns shorter than %d bytes are skipped to avoid coincidences. Streams are searched as emitted, with whitespace/escaped line breaks removed, and after decoding every base64url/base64/hex run (nested, depth 4).", minPatternLen))
 	r.Require(r.Pick(2500, 10000), r.Pick(1500, 6000))
@@ -426,6 +432,7 @@ func TestCheck(t *testing.T) {
 	h.phaseIAM(n1)
 	h.scan("iam-flows")
 	h.phaseGoAPI(n1)
+	h.phaseJWKHeaderFamilies(n1)
 	h.scan("go-api")
 	n2 := h.phaseDIDNuts(verbosity, env, namer)
 	h.scan("did-nuts")
